@@ -20,7 +20,8 @@ Definition corr_rot (rot : bool) (c : case) : bool :=
   end.
 
 (* the close loop's channel order is the Go runtime's choice: either order may explain the run *)
-Definition corr (c : case) : bool := corr_rot false c || corr_rot true c.
+(* cases marked CNoModel (positioned delta subscriptions: outside the model) are judged by the oracle only *)
+Definition corr (c : case) : bool := no_model c || corr_rot false c || corr_rot true c.
 
 (* the property on the observed settled state: a marker publication reaches the
    connection iff it reports itself subscribed, at most once, and a reported
